@@ -115,13 +115,31 @@ func (c20) Exec(h []Ev) []Ev {
 			e["panic"] = guard(func() {
 				pmt, err := psi.NewPMT(payload)
 				streams := []Ev{}
-				e["absent_lags"] = false
+				e["absent_lags"], e["after_remove"] = false, []Ev{}
 				if err == nil {
 					for _, es := range pmt.ElementaryStreams() {
 						streams = append(streams, Ev{"type": int(es.StreamType()), "pid": es.ElementaryPid(),
 							"lags": pmt.IsPidForStreamWherePresentationLagsEbp(es.ElementaryPid())})
 					}
 					e["absent_lags"] = pmt.IsPidForStreamWherePresentationLagsEbp(0x1ffe)
+					// the query follows the stream list: after removing every other stream the removed PIDs
+					// are unknown (false) and the kept ones answer as before
+					var rm []int
+					for k, es := range pmt.ElementaryStreams() {
+						if (k+p.Program)%2 == 0 || (k+p.Version)%5 == 0 {
+							rm = append(rm, es.ElementaryPid())
+						}
+					}
+					pmt.RemoveElementaryStreams(rm)
+					after := []Ev{}
+					for _, st := range p.Streams {
+						gone := false
+						for _, q := range rm {
+							gone = gone || q == st.Pid
+						}
+						after = append(after, Ev{"type": st.Type, "pid": st.Pid, "removed": gone, "lags": pmt.IsPidForStreamWherePresentationLagsEbp(st.Pid)})
+					}
+					e["after_remove"] = after
 				}
 				e["streams"] = streams
 				e["parsed"] = len(streams)
